@@ -302,6 +302,10 @@ func (df *DataFile) readToBuf(blockID uint32, offset uint32, buf *bytebufferpool
 	for {
 		// 当前 block 绝对偏移量
 		off := int64(blockID) * blockSize
+		// 当前 block 起始位置已到达或越过文件末尾
+		if off >= fileSize {
+			return io.EOF
+		}
 		// 当前 block 实际大小
 		size := uint32(min(fileSize-off, blockSize))
 
@@ -314,8 +318,8 @@ func (df *DataFile) readToBuf(blockID uint32, offset uint32, buf *bytebufferpool
 			return err
 		}
 
-		// 对当前 chunk 解码
-		data, chunkType, err := DecodeChunk(block[offset:])
+		// 对当前 chunk 解码, 仅允许解码本次读取到的有效字节
+		data, chunkType, err := DecodeChunk(block[offset:size])
 		if err != nil {
 			return err
 		}
@@ -389,6 +393,10 @@ func (reader *DataReader) next() ([]byte, *DataPos, error) {
 	for {
 		// 当前 block 绝对偏移量
 		off := int64(reader.blockID) * blockSize
+		// 当前 block 起始位置已到达或越过文件末尾
+		if off >= fileSize {
+			return nil, nil, io.EOF
+		}
 		// 当前 block 实际大小
 		size := uint32(min(fileSize-off, blockSize))
 
@@ -402,9 +410,13 @@ func (reader *DataReader) next() ([]byte, *DataPos, error) {
 			return nil, nil, err
 		}
 
-		// 对当前 chunk 解码
-		data, chunkType, err := DecodeChunk(reader.blockBuf[reader.offset:])
+		// 对当前 chunk 解码, 仅允许解码本次读取到的有效字节, 不得解释缓冲区中的残留字节
+		data, chunkType, err := DecodeChunk(reader.blockBuf[reader.offset:size])
 		if err != nil {
+			// chunk 超出文件末尾, 说明末尾记录未完整写入(如断电), 视为日志到此结束
+			if err == ErrIncompleteChunk && off+int64(size) >= fileSize {
+				return nil, nil, io.EOF
+			}
 			return nil, nil, err
 		}
 		res = append(res, data...)
